@@ -49,6 +49,15 @@ CHECKS = {
              '0, L/2, L-1, L, L+1, 2L and malformed strings; TLC judges every response (status, Content-Range, body = slice).',
         note='Trusted: TLC; the RFC 7233 grammar classifier (regex) and the body/slice comparison in the projection. Init segments are out of scope.',
         design='4 C13'),
+    'C19': dict(
+        technique='TLA+ spec IsoTime.tla (integer reference for ms rounding with carry, civil calendar, long-division timecode reference): '
+                  'TLC over every fraction in scope; real rendering/parsing results tokenised and validated by TLC',
+        text='TLC checks that the integer reference (and the implementation-shaped model) keeps every rendered duration within 500 us with '
+             'fields below 60 for every ms boundary +-1 us (all 10^6 fractions in thorough); the real toIsoDuration / from_isodatetime / '
+             'to_iso_datetime / timecode helpers are run on the same grid (timedelta, float and str inputs, offsets -12:00..+14:00, '
+             'timescales 1..10^7) and TLC evaluates round-trip, field-range, text-value, inverse and monotonicity clauses on every result.',
+        note='Trusted: TLC; regex tokenisation and lexical xs:duration/xs:dateTime classification in the projection. Durations >= 0.',
+        design='4 C19'),
     'C20': dict(
         technique='TLA+ spec BufferedReader.tla: TLC exhaustive refinement check (implementation-shaped cache model vs '
                   'in-memory stream) + every model edge replayed on the real class + TLC trace validation of recorded calls',
